@@ -149,6 +149,23 @@ CLAIMED = {
         "Trusted: Coq kernel; gen_tz translator (fails closed on unexpected pytz shapes); hand model of CPython's fromisoformat (fuzzed 2.3M strings during construction, tied every run by correspondence), astimezone range checks and pytz's fromutc (modelled, not verified).",
         "DESIGN.md section 5 C20",
     ),
+    "C11": (
+        "Coq proof by induction over histories with a separation invariant on a store model of Python aliasing (lru_cache + Tree.copy/deepcopy), copy mode regenerated from source + correspondence on random parse/edit histories",
+        "Props/C11.v: for every cache size, every pure parser and every history of parses (hits, misses, evictions, exceptions) and in-place edits (replace/remove/append at any depth, moved subtrees), every parse returns the "
+        "fresh tree under deep copy (full statement, no partial); the generated constant says the source copies deeply (C11_source_mode: the obligation the original shallow copy breaks); shallow/no copy refuted by the three-step witness; "
+        "evaluation is history independent. Implementation: random histories incl. > 1024 distinct strings (evictions), both parsers.",
+        "Trusted: Coq kernel; gen_cache translator (fail-closed classification of tree_copy's return expression and the decorator stacks); the store model of functools.lru_cache, lark Tree.copy/__deepcopy__ and Python aliasing "
+        "(modelled, tied by correspondence); pure_parse is a Section variable (Lark is a pure function of the string). Threads racing on the cache and rebinding attributes of Tree objects are outside the model.",
+        "DESIGN.md section 5 C11",
+    ),
+    "C19": (
+        "Coq proof of dump/load round trip for a generic interpreter of schema descriptors regenerated from source (ast), compatibility of each schema/class pair by vm_compute, tree schema by nested induction + JSON-level correspondence",
+        "Props/C19.v (15 theorems): C19_generic (compatible descriptor + inhabitant => load (dump v) = v) proved once; C19_compatible_<class> for the six classes over the GENERATED descriptors (the obligation a dropped allow_none breaks); "
+        "the pre-fix schema refuted; C19_tree for trees with non-empty token values (necessity shown); evaluation after round trip unchanged. Implementation: random instances incl. None outcomes, mutated documents for the error paths, parsed trees.",
+        "Trusted: Coq kernel; gen_schemas translator (ast only, fail-closed, cross-checked against _declared_fields every run); the model of marshmallow 3.22 / attrs validators (modelled, tied by correspondence). "
+        "tree_ok (token values non-empty) is a hypothesis observed on every parsed tree at run time, not proved from the parser model.",
+        "DESIGN.md section 5 C19",
+    ),
 }
 
 PENDING_REASON = "not yet built in this round: the Coq model/theorems for this property are under construction (see DESIGN.md section 11); no check is claimed until it exists"
